@@ -127,6 +127,8 @@ def check_C18(ctx):
                           f"{sx.bnd(d[1])}", None)
     import checks_fol
     checks_fol.c18_fol_part(ctx)
+    import checks_train_fol
+    checks_train_fol.c18_fol_training_part(ctx)
     hist = {}
     for sc in scs:
         k = f"epochs{sc[7]}/neurons{sum(1 for o in sc[1] if o[0] >= 2)}/wmax{int(any(c[0] for c in sc[5]))}"
@@ -136,7 +138,7 @@ def check_C18(ctx):
     ctx.assumptions.append("the optimiser is an arbitrary oracle in the theorems; on the implementation a scripted optimiser (sets dyadic weights/biases incl. negative and oversized ones) makes every epoch exactly comparable")
     return ctx.finish("proof", pr, st, rule="K9: random propositional KBs over And/Or/Implies/Not, facts on atoms, labels on neurons, w_max/b_max on 30-40% of the neurons, 1-4 epochs of Model.train with SUPERVISED (+CONTRADICTION) losses and a scripted "
                       "optimiser that sets weights from {-2,-1/2,0,1/2,1,5/4,2,3} and biases from {-1,0,1/2,1,3/2,3}; per epoch the loss and the parameters after projection, then the final bounds and parameters are compared exactly with the model; "
-                      "monitors: facts/labels untouched, parameters admissible and finite, losses >= 0, final bounds == fresh reset+infer under the final parameters (second run on the implementation); first-order part: K6 scenarios with Model.loss_fn([CONTRADICTION]) after every model-level call, compared exactly with the model's per-row sum and with an independent oracle (>= 0, zero iff no row crosses, = sum of L-U over crossing rows); per-formula supervised loss against labels listed in random order on unit-weight KBs (loss x 2n recovered exactly on the 1/8 grid) compared with the model and with an independent oracle")
+                      "monitors: facts/labels untouched, parameters admissible and finite, losses >= 0, final bounds == fresh reset+infer under the final parameters (second run on the implementation); first-order part: K6 scenarios with Model.loss_fn([CONTRADICTION]) after every model-level call, compared exactly with the model's per-row sum and with an independent oracle (>= 0, zero iff no row crosses, = sum of L-U over crossing rows); per-formula supervised loss against labels listed in random order on unit-weight KBs (loss x 2n recovered exactly on the 1/8 grid) compared with the model and with an independent oracle; first-order TRAINING traces (implementation only, scripted optimiser, 1-3 epochs, labels on 1-4 groundings of every neuron): facts and labels untouched, parameters admissible and finite, losses >= 0, final bounds = fresh reset+infer under the final parameters")
 
 
 @monitor("c18_final")
